@@ -6,17 +6,17 @@ generators cross as "py" | "np" | "torch" | "actSpace" | "obsSpace" | "os" | "no
 
 ops
   {"op":"predict","cfg":{algo,nEnvs,seed,useSde,sdeFreq,useSdeAtWarmup,noise,learningStarts,cnn,envPy,envNp,initDraws},
-   "resetDraws":[k],"events":[ev]}
+   "resetDraws":[k],"options":[tag|null],"events":[ev]}        (options pending when the model is built)
       ev = {"e":"learnStart"} | {"e":"rolloutStart"} | {"e":"step","t":t,"k":k,"draws":[k]} | {"e":"rolloutEnd"} | {"e":"train","n":n,"single":b}
          | {"e":"reset","draws":[k]} | {"e":"idle"}
     → {"ok":traceOK ⊥ (libTrace …), "noninterf":outputs from two ambient states are equal,
-       "deliveries":[[seed|null]], "segments":[{"must":[g],"may":[g],"low":[g],"pend":[s]}]}
+       "deliveries":[[[seed|null, options tag|null]]], "segments":[{"must":[g],"may":[g],"low":[g],"pend":[s]}]}
       segment 0 = `construct`, 1 = `firstLearn` (noise reset + first env reset), 2… = one per event; `must` = generators drawn with the
       data-dependent branch not taken, `may` = with it taken; `low`/`pend` = analysis state after the segment
-  {"op":"measured","n":n,"segments":[[mop]]}
-      mop = {"o":"seed","g":g,"s":s} | {"o":"reset","g":g} | {"o":"envSeed","s":s,"n":n} | {"o":"envReset","n":n} | {"o":"draw","g":g,"k":k}
+  {"op":"measured","n":n,"options":[tag|null],"segments":[[mop]]}
+      mop = {"o":"setOptions","opts":[tag|null]} | {"o":"seed","g":g,"s":s} | {"o":"reset","g":g} | {"o":"envSeed","s":s,"n":n} | {"o":"envReset","n":n} | {"o":"draw","g":g,"k":k}
           | {"o":"discard","g":g,"k":k}
-    → {"ok":traceOK ⊥ trace,"firstBad":segment index|null,"noninterf":b,"deliveries":[[seed|null]],
+    → {"ok":traceOK ⊥ trace,"firstBad":segment index|null,"noninterf":b,"deliveries":[[[seed|null,tag|null]]],
        "segments":[{"low":[g],"pend":[s]}]}
 -/
 import SB3Verif.Driver.Proto
@@ -46,11 +46,17 @@ def asGen (j : Json) : Except String Gen := do
       | none => throw s!"bad generator {s}"
     else throw s!"bad generator {s}"
 
+def asOptNat (j : Json) : Except String (Option Nat) :=
+  match j with
+  | .null => pure none
+  | _ => do return some (← asNat j)
+
 def asOp (j : Json) : Except String Op := do
   let o ← getStr j "o"
   match o with
   | "seed" => return .seed (← fld j "g" >>= asGen) (← getNat j "s")
   | "reset" => return .reset (← fld j "g" >>= asGen)
+  | "setOptions" => return .setOptions (← getList asOptNat j "opts")
   | "envSeed" => return .envSeed (← getNat j "s") (← getNat j "n")
   | "envReset" => return .envReset (← getNat j "n")
   | "draw" => return .draw (← fld j "g" >>= asGen) (← getNat j "k")
@@ -100,8 +106,10 @@ def lowJ (n : Nat) (L : Low) : List (String × Json) :=
   [("low", listJ (fun g => strJ (genName g)) ((allGens n).filter L.gens)),
    ("pend", listJ (fun i => strJ (pendName (L.pend i))) (List.range n))]
 
-def delivJ (d : List (List (Option Nat))) : Json :=
-  listJ (listJ fun o => match o with | some k => natJ k | none => Json.null) d
+def optJ (o : Option Nat) : Json := match o with | some k => natJ k | none => Json.null
+
+def delivJ (d : List (List (Option Nat × Option Nat))) : Json :=
+  listJ (listJ fun o => Json.arr #[optJ o.1, optJ o.2]) d
 
 def stA : RngState := ambientState 1 (some 5)
 def stB : RngState := ambientState 2 none
@@ -112,6 +120,7 @@ def stepC10 (_ : Unit) (j : Json) : Except String (Unit × Json) := do
   | "predict" =>
     let cfg ← fld j "cfg" >>= asCfg
     let ds ← getList asNat j "resetDraws"
+    let opts ← getList asOptNat j "options"
     let evJ ← fld j "events" >>= asList
     let evF ← evJ.mapM (asEv false)
     let evT ← evJ.mapM (asEv true)
@@ -129,10 +138,11 @@ def stepC10 (_ : Unit) (j : Json) : Except String (Unit × Json) := do
     let segs := go Low.bot segsF segsT []
     return ((), objJ [("ok", boolJ (traceOK Low.bot traceT)),
                       ("noninterf", boolJ (outputs traceT stA == outputs traceT stB)),
-                      ("deliveries", delivJ (deliveries traceT stA)),
+                      ("deliveries", delivJ (deliveries traceT (stA.withOptions opts))),
                       ("segments", Json.arr segs.toArray)])
   | "measured" =>
     let n ← getNat j "n"
+    let opts ← getList asOptNat j "options"
     let segs ← fld j "segments" >>= asListOf (asListOf asOp)
     let trace := segs.flatten
     let rec goM (L : Low) (ss : List (List Op)) (acc : List Json) : List Json :=
@@ -151,7 +161,7 @@ def stepC10 (_ : Unit) (j : Json) : Except String (Unit × Json) := do
       | none => Json.null
     return ((), objJ [("ok", boolJ (traceOK Low.bot trace)), ("firstBad", bad),
                       ("noninterf", boolJ (outputs trace stA == outputs trace stB)),
-                      ("deliveries", delivJ (deliveries trace stA)),
+                      ("deliveries", delivJ (deliveries trace (stA.withOptions opts))),
                       ("segments", Json.arr (goM Low.bot segs []).toArray)])
   | _ => throw s!"bad-op {op}"
 
